@@ -47,14 +47,14 @@ class G:
     def nat(self, name):
         v = self.ctx.fresh_int(name)
         if self.ctx.concrete:
-            return abs(v)
+            return v if v >= 0 else -v
         self.ctx.assume(v >= 0)
         return v
 
     def pos(self, name):
         v = self.ctx.fresh_int(name)
         if self.ctx.concrete:
-            return abs(v) + 1
+            return v if v >= 1 else 1 - v
         self.ctx.assume(v >= 1)
         return v
 
@@ -106,6 +106,14 @@ class DriverPolicy(Policy):
         q = self._qual(fn)
         if q is None:
             return NotImplemented
+        if isinstance(fn, types.FunctionType) and getattr(fn, "__module__", None) in self.c.native_modules \
+                and q not in self.c.callees:
+            try:
+                return fn(*args, **kwargs)
+            except (Unsupported, PathInfeasible, PathEnd, ProgExc):
+                raise
+            except Exception as e:
+                raise ProgExc(e)
         if q in self.c.natives and isinstance(fn, types.FunctionType):
             try:
                 return fn(*args, **kwargs)
